@@ -4,8 +4,9 @@ CONSTANTS
   DevConstructDropsWriteError = FALSE
   DevConstructLeavesWriter = FALSE
   DevUpdateReturnsTable = TRUE
+  DevMemoNoDrainOnCancel = FALSE
   DriverCloses = TRUE
-  Plans = {"fetch3", "fetch2", "fanout", "update", "createdrop", "construct", "show"}
+  Plans = {"fetch3", "fetch2", "fanout", "update", "createdrop", "construct", "show", "memo"}
   ChanSizes = {0, 1, 2}
 INVARIANTS NoTableWithError
 CHECK_DEADLOCK FALSE
